@@ -7,30 +7,95 @@ use std::ops::DerefMut;
 use std::pin::Pin;
 use std::task::{Context, Poll};
 
+/// `ReadBuf` as documented by tokio: a buffer with a filled prefix and an initialised prefix
+/// (filled <= initialised <= capacity).  `new` = fully initialised, `uninit` = nothing
+/// initialised yet.
 pub struct ReadBuf<'a> {
-    buf: &'a mut [u8],
+    buf: &'a mut [std::mem::MaybeUninit<u8>],
     filled: usize,
+    initialized: usize,
 }
 impl<'a> ReadBuf<'a> {
     pub fn new(buf: &'a mut [u8]) -> Self {
-        Self { buf, filled: 0 }
+        let initialized = buf.len();
+        let buf = unsafe { &mut *(buf as *mut [u8] as *mut [std::mem::MaybeUninit<u8>]) };
+        Self { buf, filled: 0, initialized }
+    }
+    pub fn uninit(buf: &'a mut [std::mem::MaybeUninit<u8>]) -> Self {
+        Self { buf, filled: 0, initialized: 0 }
+    }
+    pub fn capacity(&self) -> usize {
+        self.buf.len()
     }
     pub fn remaining(&self) -> usize {
         self.buf.len() - self.filled
     }
     pub fn filled(&self) -> &[u8] {
-        &self.buf[..self.filled]
+        unsafe { &*(&self.buf[..self.filled] as *const [std::mem::MaybeUninit<u8>] as *const [u8]) }
     }
-    pub fn capacity(&self) -> usize {
-        self.buf.len()
+    pub fn filled_mut(&mut self) -> &mut [u8] {
+        unsafe { &mut *(&mut self.buf[..self.filled] as *mut [std::mem::MaybeUninit<u8>] as *mut [u8]) }
+    }
+    pub fn initialized(&self) -> &[u8] {
+        unsafe { &*(&self.buf[..self.initialized] as *const [std::mem::MaybeUninit<u8>] as *const [u8]) }
+    }
+    pub fn initialized_mut(&mut self) -> &mut [u8] {
+        unsafe { &mut *(&mut self.buf[..self.initialized] as *mut [std::mem::MaybeUninit<u8>] as *mut [u8]) }
+    }
+    /// # Safety
+    /// The caller must not de-initialise what is initialised.
+    pub unsafe fn inner_mut(&mut self) -> &mut [std::mem::MaybeUninit<u8>] {
+        self.buf
+    }
+    /// # Safety
+    /// The caller must not de-initialise what is initialised.
+    pub unsafe fn unfilled_mut(&mut self) -> &mut [std::mem::MaybeUninit<u8>] {
+        &mut self.buf[self.filled..]
+    }
+    pub fn initialize_unfilled(&mut self) -> &mut [u8] {
+        let n = self.remaining();
+        self.initialize_unfilled_to(n)
+    }
+    pub fn initialize_unfilled_to(&mut self, n: usize) -> &mut [u8] {
+        assert!(self.remaining() >= n, "n overflows remaining");
+        let end = self.filled + n;
+        let mut i = self.initialized;
+        while i < end {
+            self.buf[i] = std::mem::MaybeUninit::new(0);
+            i += 1;
+        }
+        if end > self.initialized {
+            self.initialized = end;
+        }
+        unsafe { &mut *(&mut self.buf[self.filled..end] as *mut [std::mem::MaybeUninit<u8>] as *mut [u8]) }
     }
     pub fn clear(&mut self) {
         self.filled = 0;
     }
+    pub fn advance(&mut self, n: usize) {
+        let new = self.filled.checked_add(n).expect("filled overflow");
+        self.set_filled(new);
+    }
+    pub fn set_filled(&mut self, n: usize) {
+        assert!(n <= self.initialized, "filled must not become larger than initialized");
+        self.filled = n;
+    }
+    /// # Safety
+    /// The next `n` unfilled bytes must have been initialised.
+    pub unsafe fn assume_init(&mut self, n: usize) {
+        let new = self.filled + n;
+        if new > self.initialized {
+            self.initialized = new;
+        }
+    }
     pub fn put_slice(&mut self, s: &[u8]) {
         assert!(self.remaining() >= s.len(), "buf.len() must fit in remaining()");
         let end = self.filled + s.len();
-        self.buf[self.filled..end].copy_from_slice(s);
+        let dst = unsafe { &mut *(&mut self.buf[self.filled..end] as *mut [std::mem::MaybeUninit<u8>] as *mut [u8]) };
+        dst.copy_from_slice(s);
+        if self.initialized < end {
+            self.initialized = end;
+        }
         self.filled = end;
     }
 }
